@@ -104,6 +104,8 @@ func runC17(w *World) *Result {
 		return r
 	}
 	r.Analysed["bash_line_variants"] = len(b.Lines)
+	r.Rule("R-C17-emitcond", "every line of write / read / exists is emitted for every text of path, content and flag (nothing is left out because a text equals one seen before)", 3)
+	EmitCondRule(w, b, r, "R-C17-emitcond", "WriteFile", "ReadFile", "Exists")
 	c08Quote(w, b, r, func(m string) bool { return m == "WriteFile" || m == "ReadFile" || m == "Exists" || m == "FuncCall" }) // paths and contents also travel as function arguments
 	// read: what is handed back is the file without its final line terminator – exactly one.
 	// A plain command substitution removes every trailing newline.
